@@ -9,6 +9,7 @@ starts from the state a freshly started nbdime process has (modules imported, no
 """
 import asyncio
 import gc
+import copy
 import io
 import json
 import logging
@@ -411,7 +412,49 @@ def gen_requests(rnd, mode, case):
             else _store_request(rnd, mode, case, False)
     if all(rq['cls'] != 'valid' for rq in out):
         out[-1] = _read_request(rnd, 'diff', mode, True) if mode['kind'] != 'difftool' or tool_args(mode)[1] else _page_request(rnd)
-    return out[:7]
+    out = out[:7]
+    # an input notebook is saved again between two requests (an editor save, `cp -p`, a checkout): the page is reloaded and the
+    # same request comes again.  The new content has the same length and the file keeps its modification time, which is what a
+    # save within one clock tick or a time-preserving copy looks like.  Only for arguments the server reads from disk by name.
+    if rnd.random() < 0.4 and mode.get('argform', 'rel') in ('rel', 'abs'):
+        cands = [i for i, rq in enumerate(out) if rq['ep'] in ('diff', 'merge') and rq['cls'] == 'valid'
+                 and any(v != DEVNULL for v in rq['names'].values())]
+        if cands:
+            i = rnd.choice(cands)
+            rq = out[i]
+            victim = rnd.choice(sorted(k for k, v in rq['names'].items() if v != DEVNULL))
+            ev = {'ep': 'event', 'method': 'EVENT', 'rel': 'save %s again' % rq['names'][victim], 'query': '', 'cls': 'event',
+                  'label': 'same-size-same-mtime', 'file': rq['names'][victim]}
+            out[i + 1:i + 1] = [ev, copy.deepcopy(rq)]
+    return out
+
+
+def rewrite_same_size(path):
+    """save the notebook file again with one ASCII letter/digit of one cell source changed: same byte length, same mtime.
+    Returns a description, or None when the file offers no such character (then nothing is changed)"""
+    st = os.stat(path)
+    with open(path, 'rb') as fh:
+        raw = fh.read()
+    try:
+        doc = json.loads(raw.decode('utf8'))
+    except ValueError:
+        return None
+    for c in doc.get('cells', []) if isinstance(doc, dict) else []:
+        src = c.get('source')
+        if not isinstance(src, str):
+            continue
+        for j, ch in enumerate(src):
+            if ch.isascii() and ch.isalnum():
+                new = ('7' if ch != '7' else '3') if ch.isdigit() else ('q' if ch != 'q' else 'z')
+                c['source'] = src[:j] + new + src[j + 1:]
+                data = json.dumps(doc, indent=1, ensure_ascii=False).encode('utf8')
+                if len(data) != len(raw):
+                    return None            # not written by nb_bytes: leave it alone
+                with open(path, 'wb') as fh:
+                    fh.write(data)
+                os.utime(path, ns=(st.st_atime_ns, st.st_mtime_ns))
+                return '%r -> %r at source[%d]' % (ch, new, j)
+    return None
 
 
 def gen_case(jobseed, index, triples):
@@ -648,6 +691,11 @@ def serve(root, case, reqs):
             for rq in reqs:
                 before = snapshot(root)
                 n0, s0 = len(stops), len(sites.sites)
+                if rq['ep'] == 'event':
+                    what = rewrite_same_size(os.path.normpath(os.path.join(root, 'work', subst(rq['file'], root))))
+                    answers.append({'status': 0, 'body': repr(what).encode(), 'stopped': False, 'exit_code': repr(getattr(app, 'exit_code', None)),
+                                    'before': before, 'after': snapshot(root), 'sites': []})
+                    continue
                 body = body_for(rq, case, root)
                 if rq['method'] == 'POST' and body is None:
                     body = b''
@@ -900,6 +948,8 @@ def run_case(case, keep=None, history=True):
             if k >= len(answers):
                 break
             ans = answers[k]
+            if rq['ep'] == 'event':
+                continue               # an event of the environment, not a request: nothing to judge
             f, note = judge(root, case, rq, ans)
             if note:
                 notes.append(note)
